@@ -69,6 +69,18 @@ Fixpoint check_trace (pop : list (agent float)) (ops : list (pop_op float)) (obs
 
 (* initial population as read from the real agents: must satisfy the guard of the theorems and
    agree with the first observation; then every operation is followed *)
+(* hypotheses of the agent-level theorems, evaluated on the registry read from the real agents:
+   wf_agent (computed), empty caches (by construction of the term), and Coherent up to binary64 equality *)
+Definition coherentb (a : agent float) : bool :=
+  forallb (fun o : optim float =>
+             match getv (a_vals a) (o_lr_name o) with
+             | Some v => feqb (o_wlr o) v && forallb (feqb v) (o_groups o)
+             | None => false
+             end) (a_opts a).
+Definition fresh_cacheb (a : agent float) : bool :=
+  forallb (fun h : hpent float => match hp_cache h with None => true | Some _ => false end) (a_hps a).
+
 Definition check_pop (pop0 : list (agent float)) (ops : list (pop_op float)) (obs0 : list agent_obs)
            (obs : list (list agent_obs)) : bool :=
-  forallb wf_agent pop0 && all2 check_agent pop0 obs0 && check_trace pop0 ops obs.
+  forallb wf_agent pop0 && forallb fresh_cacheb pop0 && forallb coherentb pop0
+  && all2 check_agent pop0 obs0 && check_trace pop0 ops obs.
